@@ -232,6 +232,8 @@ def make_contractions(basis_dict, atoms, coords, coord_types):
         )
 
     # make shells
+    # NOTE: consume a private copy so that the given list is left intact and a tuple is accepted
+    coord_types = list(coord_types)
     for icenter, (atom, coord) in enumerate(zip(atoms, coords)):
         for angmom, exps, coeffs in basis_dict[atom]:
             basis.append(
